@@ -27,6 +27,7 @@ def dispatch (line : String) : String :=
   | "parsewf" :: args => Driver.ParseWfD.handle args
   | "lintwf" :: args => Driver.ParseWfD.handleLint args
   | "exprwf" :: args => Driver.ParseWfD.handleExpr args
+  | "callmeta" :: args => Driver.ParseWfD.handleCallMeta args
   | "lintsort" :: args => Driver.LintD.handleSort args
   | "relpath" :: args => Driver.LintD.handleRel args
   | "projectat" :: args => Driver.LintD.handleProjectAt args
